@@ -138,12 +138,12 @@ static Table& tab() { static Table t; return t; }
 static void prop_math(pbt::Ctx& c) { Table& t = tab(); const Inst& in = t[c.draw(t.size())]; in.run(c, in); }
 static int reg_all() {
 	C01_REG(tab(), run_math, float) C01_REG(tab(), run_math, double)
-	add_target("exp-trig-reciprocal", prop_math, tab().size(), 15000, 800000,
+	add_target("exp-trig-reciprocal", prop_math, tab().size(), 15000, 400000,
 	           "instance = vec<L,float|double,Q>; every case runs pow exp log exp2 log2 sqrt inversesqrt radians degrees sin cos tan asin acos atan atan(y,x) sinh cosh tanh asinh acosh atanh and "
 	           "sec csc cot asec acsc acot sech csch coth asech acsch acoth on operands inside each function's documented domain (x > 0, |x| <= 1, x >= 1, x != 0, moderate angles); "
 	           "bit identity required, except lowp float inversesqrt (relative 2^-8); non-trivial = L >= 2, pairwise distinct components with pairwise distinct scalar results (per-function class counters)");
-	add_sweep("inversesqrt-lowp-sweep", prop_isqrt, 0x7f800000ULL - 0x00800000ULL, 32, 1,
-	          "every positive normal float (quick: one per block of 32) in lane 0 of vec1..4<float,lowp> (other lanes: mantissa bit flipped, next binade, mantissa complemented): relative error of the fast "
+	add_sweep("inversesqrt-lowp-sweep", prop_isqrt, 0x7f800000ULL - 0x00800000ULL, 32, 2,
+	          "every positive normal float (quick: one per block of 32, thorough: one per block of 2) in lane 0 of vec1..4<float,lowp> (other lanes: mantissa bit flipped, next binade, mantissa complemented): relative error of the fast "
 	          "inversesqrt against the exact scalar overload < 2^-8; mediump float and lowp double stay bit-exact; all cases non-trivial");
 	return 0;
 }
